@@ -505,6 +505,10 @@ def slice_dim(f, slicedef, fuzzydim=True):
     outf = PseudoNetCDFFile()
     p2p.addDimensions(inf, outf)
     p2p.addGlobalProperties(inf, outf)
+    # also when no variable uses the dimension
+    newlen = len(range(len(inf.dimensions[dimkey]))[dmin:dmax:dstride])
+    newdim = outf.createDimension(dimkey, newlen)
+    newdim.setunlimited(unlimited)
 
     for varkey in inf.variables.keys():
         var = inf.variables[varkey]
